@@ -162,6 +162,29 @@ func c14FanOut(p *Prog, r *Report) {
 		}
 		return false
 	}
+	// OnEvent, its closures, and private helpers the fan-out was split into (with their sender objects)
+	var fanFns []*ssa.Function
+	{
+		seenF := map[*ssa.Function]bool{}
+		add := func(f *ssa.Function) {
+			for _, g := range withSenders(p, f) {
+				if !seenF[g] {
+					seenF[g] = true
+					fanFns = append(fanFns, g)
+				}
+			}
+		}
+		add(fn)
+		for _, h := range withCallees(p, fn, 2) {
+			if h != fn && h.Pkg == fn.Pkg && h.Parent() == nil && onlyCalledFrom(p, h, fn, 3) {
+				add(h)
+			}
+		}
+	}
+	helperOf := map[*ssa.Function]bool{}
+	for _, f := range fanFns {
+		helperOf[rootFn(f)] = true
+	}
 	for _, f := range withClosures(fn) {
 		eachCall(f, func(c ssa.CallInstruction) {
 			if callIsMethod(c, "sync", "Map", "Range") {
@@ -195,12 +218,12 @@ func c14FanOut(p *Prog, r *Report) {
 	}
 	// frame: NewFrame(_, -1, evt.Message)
 	okFrame := false
-	for _, f := range withClosures(fn) {
+	for _, f := range fanFns {
 		eachCall(f, func(c ssa.CallInstruction) {
 			if callIsFunc(c, "frame", "NewFrame") {
 				a := c.Common().Args
 				if k, ok := constInt(a[1]); ok && k == -1 {
-					for _, o := range origins(a[2]) {
+					for _, o := range originsInter(p, a[2], 2) {
 						if fld, _ := loadedField(o); fld != nil && fld.Name() == "Message" {
 							okFrame = true
 						}
@@ -274,6 +297,7 @@ func c14FanOut(p *Prog, r *Report) {
 	if mc, ok := rangeCall.Call.Args[1].(*ssa.MakeClosure); ok {
 		cb := mc.Fn.(*ssa.Function)
 		s := newSim(p)
+		s.Inline = func(f *ssa.Function) bool { return f != fn && helperOf[f] && f.Parent() == nil }
 		s.Effect = func(call ssa.CallInstruction, callee *ssa.Function) []string {
 			if isConnWrite(call) {
 				return []string{"write"}
